@@ -15,8 +15,8 @@ from pyvc.contract import *        # noqa
 from pyvc.views import AbsView
 from contracts.leaves import MapDatasetC, self_view
 from contracts.stages import SliceDatasetC, ConcatenateDatasetC, ItemsDatasetC, ZipDatasetC
-from contracts.stages2 import FilterDatasetC, BatchDatasetC, CatchExceptionDatasetC, F, _batch_iter_inv, _filter_inv, \
-    _no_upstream_indexerror, _batch_getitem_inv
+from contracts.stages2 import FilterDatasetC, BatchDatasetC, CatchExceptionDatasetC, UnbatchDatasetC, F, _batch_iter_inv, _filter_inv, \
+    _no_upstream_indexerror, _batch_getitem_inv, _unbatch_hooks, _sum_b
 from contracts.copying import init_field_map
 from contracts.factories import DatasetC, returns_stage
 
@@ -217,5 +217,15 @@ class BatchMapC(DatasetC):
                                      requires=lambda S: S.old.num_workers > 0, post=_batch_map_post, hooks=_bm_hooks(),
                                      props=('C08',))]}
 
+
+# unbatch: when the k-th example is handed out exactly the input batches up to the one holding it have been pulled
+ITER.append(_clone(UnbatchDatasetC, {'__iter__': [
+    Variant('values', params={'with_key': 'false'}, generator=True,
+            on_yield=lambda S, v: [('C08:unbatch-pulls-one-input-batch-per-outer-step-and-only-when-needed',
+                                    z3.BoolVal(len([e for e in evals(S) if e[0] in ('get', 'pull')]) <= 1))],
+            post=lambda S, o: [('iter:ends', smt.T)], hooks=_unbatch_hooks(),
+            loops={'0': lambda S: S.out_n == _sum_b(F(S)['input_dataset'].t)(S.k),
+                   '0.0': lambda S: S.out_n == _sum_b(F(S)['input_dataset'].t)(S.ks['0']) + S.k},
+            props=('C08',))]}))
 
 CONTRACTS = INITS + POINT + ITER + [BatchMapC()]
